@@ -156,9 +156,13 @@ def set_config(
         ```
     """  # noqa: E501
     params = {k: v for k, v in locals().items() if k != "kwargs"} | kwargs
-    for name, value in params.items():
-        if value is not None:
-            _global_config[name] = tea_tasting.utils.auto_check(value, name)
+    # Validate everything first: a call that raises must not change the configuration.
+    new_config = {
+        name: tea_tasting.utils.auto_check(value, name)
+        for name, value in params.items()
+        if value is not None
+    }
+    _global_config.update(new_config)
 
 
 @contextlib.contextmanager
